@@ -70,10 +70,12 @@ def sol_kind(e, f, fi, selfs):
     return None
 
 
-def check_accessor(run, f, rule='R8'):
+def check_accessor(run, f, rule='R8', extra_objs=()):
+    """extra_objs: parameter names that hold list-capable objects of the library as well (operands of an operator): their .A
+    is single-or-list with respect to THEIR length"""
     fi = FuncInfo.of(f)
     prog = run.prog
-    selfs = {f.selfname} if f.selfname else set()
+    selfs = ({f.selfname} if f.selfname else set()) | set(extra_objs)
     if not selfs:
         return
     s = f.selfname
@@ -142,15 +144,21 @@ def check_accessor(run, f, rule='R8'):
             continue
         n_ob += 1
         construct = '%s: %s' % (k, what)
+        # the object whose length decides: the receiver, or the operand the value was read from
+        s_obj = s
+        for y in ast.walk(x):
+            if isinstance(y, ast.Name) and y.id in selfs:
+                s_obj = y.id
+                break
         if use == 'array':
-            if len1(fs, s, True):
+            if len1(fs, s_obj, True):
                 run.holds(rule, subj, construct, 'array-only use under len(self)==1', f=f, node=x)
             else:
                 run.violation(rule, subj, construct, '%s is used as a single array (%s) without a dominating '
                               'len(self)==1 test: for an object holding M>1 values it is a list of arrays'
                               % (k, what), f=f, node=x)
         else:
-            if len1(fs, s, False):
+            if len1(fs, s_obj, False):
                 run.holds(rule, subj, construct, 'iterated under len(self)!=1', f=f, node=x)
             else:
                 run.violation(rule, subj, construct, '%s is iterated (%s) without a dominating len(self)!=1 test: '
@@ -207,6 +215,20 @@ def check_accessor(run, f, rule='R8'):
                         n_ob += 1
                         run.violation(rule, subj, 'element subscript ' + src(y, 40), 'elements of iter(self) are objects: a '
                                       'tuple subscript is an array operation', f=f, node=y)
+    # (ii') stacking orientation: the per-element branch of an accessor stacks one result per element along axis 0, so that
+    # result[i] is the value of element i (documented shape (N, k)); a trailing .T makes axis 0 the component index
+    if not f.name.startswith('__'):
+        for x in own_walk(f.node):
+            if isinstance(x, ast.Return) and x.value is not None:
+                e = canon(fi, x.value, inline=False)
+                if matches('array([_E for _X in _IT]).T', e) is not None or matches('vstack([_E for _X in _IT]).T', e) is not None:
+                    it = (matches('array([_E for _X in _IT]).T', e) or matches('vstack([_E for _X in _IT]).T', e))['_IT']
+                    over_self = any(isinstance(y, ast.Name) and y.id in selfs for y in ast.walk(it))
+                    if over_self:
+                        n_ob += 1
+                        run.violation(rule, subj, 'stacking orientation ' + src(x.value, 50), 'the per-element results are stacked and then '
+                                      'transposed: result[i] is component i of every element, not the value of element i (the documented '
+                                      'shape for N values is (N, k)); for N = k the two are silently confused', f=f, node=x)
     # (iii) branch agreement
     body = body_nodoc(f.node)
     for st in body:
